@@ -8,7 +8,7 @@
 From TS Require Import model.Base model.Flatten model.ManifestOps proofs.FlattenProofs proofs.ManifestOpsProofs
   model.Dispatch model.ManifestPy gen.DispatchGen gen.ManifestOpsGen model.ManifestOpsGenObs
   proofs.ManifestPyFrame proofs.ManifestPySim.
-From Coq Require Import Permutation.
+From Coq Require Import Permutation ZifyBool.
 
 (* ================================================================== part 1: the frame *)
 Lemma fr_is_dict_entry n k e : hoare n (g_is_dict_entry e) (fresh k).
@@ -182,11 +182,13 @@ Proof.
   unfold token in *. set (par := @removelast pystr (split p)) in *.
   assert (PAR : par = removelast (split p)) by reflexivity.
   destruct (join par) as [|c0 s0] eqn:EJ.
-  { change (zlen (@nil Z) =? 0) with true. norm. unfold ret.
+  { (* `if len(parent_path) == 0: return`, however the test is spelled *)
+    match goal with |- context [(if ?c then _ else _) h] => replace c with true by (unfold zlen; cbn [length]; lia) end.
+    norm. unfold ret.
     exact (conj eq_refl (conj (conj OK1 SUB) (conj (same_classes_refl h) eq_refl))). }
   assert (NE : par <> []) by (intro K; rewrite K in EJ; discriminate).
   assert (PS : split (c0 :: s0) = par) by (rewrite <- EJ; apply split_join_parent; exact NE).
-  replace (zlen (c0 :: s0) =? 0) with false by (unfold zlen; cbn [length]; symmetry; apply Z.eqb_neq; lia).
+  match goal with |- context [(if ?c then _ else _) h] => replace c with false by (unfold zlen; cbn [length]; lia) end.
   rewrite run_bind, run_dget_m. rewrite <- PS, mget_absD.
   destruct (dget (ddel m p) (c0 :: s0)) as [a|] eqn:EP; cbn [option_map]; [|exact I].
   destruct (ok_in _ _ OK1 _ _ EP) as [Ha Hm].
@@ -569,6 +571,9 @@ Proof.
   pose proof (sim_dtensor W g h2 rtm RO2) as E3.
   unfold g_get_manifest_for_rank. rewrite run_bind, E1. norm. rewrite run_bind, E2. norm. rewrite run_bind, E3. norm.
   change (dupdate mg []) with mg. fold W.
+  (* `if rank < metadata.world_size`, however the test is spelled *)
+  match goal with |- context [if ?c then bind (g_get_manifest_for_existing_rank _ _ _) _ else _] =>
+    replace c with (r <? W) by (cbn [pm_world_size]; lia) end.
   unfold get_manifest_for_rank, is_existing_rank. destruct (r <? W) eqn:ER.
   - destruct (sim_existing W g h2 rtm mg r RO2 MO2) as (v & E4 & A4 & OK4); [lia|].
     rewrite run_bind, E4. norm. exists v, mg, h2, (manifest_for_existing_rank W g r).
